@@ -102,7 +102,9 @@ def build_ops(psutil):
     ops += [("children", "P"), ("children_r", "P"), ("parent", "P"), ("parents", "P"),
             ("children", "Q"), ("children_r", "Q"), ("parent", "C"), ("parents", "C"),
             ("is_running", "P"), ("str", "P"), ("iter:name,ppid", None), ("iter:all", None),
-            ("iter:none", None), ("memory_percent:uss", "P"), ("username", "P")]
+            ("iter:none", None), ("memory_percent:uss", "P"), ("username", "P"),
+            # the set forms run the same machinery (and more: the all-eligible-CPUs form reads the status record directly)
+            ("set:affinity_all", "P"), ("set:affinity0", "P"), ("set:nice", "P"), ("set:ionice", "P"), ("set:rlimit", "P")]
     return ops
 
 
@@ -143,6 +145,16 @@ def do_op(psutil, op, obj):
         return obj.memory_percent(op.split(":")[1])
     if op == "username":
         return obj.username()
+    if op == "set:affinity_all":
+        return obj.cpu_affinity([])
+    if op == "set:affinity0":
+        return obj.cpu_affinity([0])
+    if op == "set:nice":
+        return obj.nice(0)
+    if op == "set:ionice":
+        return obj.ionice(psutil.IOPRIO_CLASS_BE, 4)
+    if op == "set:rlimit":
+        return obj.rlimit(psutil.RLIMIT_NOFILE, (1024, 4096))
     raise AssertionError(op)
 
 
@@ -168,6 +180,12 @@ def run_plan(seed, op, who, plan, pre=None, post_check=True):
         w.hook = None
     extra = {}
     faulted_vanish = {hook.accesses[i][2] for i, d in hook.applied if d == "vanish"}
+    if post_check and obj is not None and obj.pid not in faulted_vanish and obj.pid in w.procs and w.procs[obj.pid].zombie \
+            and any(d == "zombie" and hook.accesses[i][2] == obj.pid for i, d in hook.applied):
+        # the zombie the call ran into is reaped afterwards: from then on it is gone like any other
+        w.reap(obj.pid) if obj.pid in w.procs else None
+        faulted_vanish = faulted_vanish | {obj.pid}
+        extra["reaped_after"] = True
     if post_check and obj is not None and obj.pid in faulted_vanish:
         # once gone, every later query raises NoSuchProcess
         bad = []
@@ -398,6 +416,62 @@ def task(arg):
             "first": first}
 
 
+# ---------------------------------------------------------------- the subject is a zombie from the start
+def ztask(arg):
+    """the subject is already a zombie when the method starts; then it is reaped (vanish) just before access k.
+    Error paths of a zombie run the zombie probe from inside the exception translator: nothing bare may escape from there."""
+    seed, op, who, plan = arg
+    import psutil
+    n = ids(seed)
+    w = mk_world(seed, [(n[who], "zombie")])
+    use_world(w)
+    obj = psutil.Process(n[who])
+    hook = PlanHook(plan, apply_dev)
+    w.hook = hook
+    w.logging = False
+    try:
+        out = outcome(do_op, psutil, op, obj)
+    finally:
+        w.hook = None
+    kinds = {d for _, d in hook.applied}
+    viol = None
+    if out[0] == "exc":
+        cls, info = out[1], out[2]
+        ok_cls = {"ZombieProcess"} | ({"NoSuchProcess"} if "vanish" in kinds else set()) | ({"AccessDenied"} if kinds & {"eacces", "eperm"} else set())
+        if cls not in PSUTIL_ERRS:
+            viol = ("zombie-subject:leak:%s:%s" % (op, cls), "%s on a zombie leaked %s %r under %r" % (op, cls, info, sorted(kinds)))
+        elif info.get("pid") != obj.pid:
+            viol = ("zombie-subject:wrong-pid:%s" % op, "%s raised %s pid=%r" % (op, cls, info.get("pid")))
+        elif cls not in ok_cls and not (cls == "NoSuchProcess" and "PID has been reused" in info.get("str", "") and kinds & {"eacces", "eperm"}):
+            viol = ("zombie-subject:unexplained:%s:%s" % (op, cls), "%s raised %s under %r" % (op, cls, sorted(kinds)))
+        elif cls == "NoSuchProcess" and "PID has been reused" in info.get("str", "") and kinds & {"eacces", "eperm"} and "vanish" not in kinds:
+            viol = ("identity-recheck-denied=>pid-reused", "%s raised %s %r; injected faults were %r" % (op, cls, info, sorted(kinds)))
+    return {"n": len(hook.accesses), "pids": [a[2] for a in hook.accesses], "viol": viol, "outcome": (out[0], out[1] if out[0] == "exc" else "value")}
+
+
+Z_OPS = ["m:environ", "m:cmdline", "m:exe", "m:cwd", "m:memory_maps", "m:open_files", "m:threads", "m:num_fds", "m:status", "m:name",
+         "m:memory_full_info", "m:io_counters", "as_dict", "m:num_ctx_switches", "m:cpu_times", "m:ppid", "m:terminal", "m:uids"]
+
+
+def zombie_part(ctx):
+    seed = ctx.seed % 1000
+    tasks = []
+    for op in Z_OPS:
+        base = ztask((seed, op, "P", ()))
+        tasks.append((seed, op, "P", ()))
+        # (only "the zombie is reaped just before access k": a refusal on top of the zombie state is a combination the
+        #  statement's quantifier does not list)
+        for i in range(base["n"]):
+            if base["pids"][i] == ids(seed)["P"]:
+                tasks.append((seed, op, "P", ((i, "vanish"),)))
+    viols, outs = [], set()
+    for t, r in zip(tasks, ctx.pmap(ztask, tasks)):
+        outs.add((t[1],) + tuple(r["outcome"]))
+        if r["viol"]:
+            viols.append({"cause": r["viol"][0], "msg": r["viol"][1], "case": {"zombie_subject": [t[0], t[1], t[2], [list(x) for x in t[3]]]}})
+    return len(tasks), len(outs), viols
+
+
 def run(ctx):
     import psutil
     from vf.simk import calibrate
@@ -453,9 +527,13 @@ def run(ctx):
         per_op.setdefault(r["op"], [0, set()])
         per_op[r["op"]][0] += r["runs"]
         per_op[r["op"]][1] |= {tuple(o) for o in r["outcomes"]}
+    nz, dz, zv = zombie_part(ctx)
+    viols += zv
+    nruns += nz
     cov = {
+        "zombie_subject_runs": nz,
         "evaluations": nruns,
-        "distinct_nontrivial": len(distinct),
+        "distinct_nontrivial": len(distinct) + dz,
         "rule": "one evaluation = one execution of a Process operation on the real code inside the simulated "
                 "kernel under one fault plan (<= bound deviations from {vanish, zombie, EACCES, EPERM} at a chosen "
                 "OS access of the process the access refers to); distinct_nontrivial = number of distinct "
@@ -475,6 +553,10 @@ def run(ctx):
 
 
 def replay(ctx, case):
+    if "zombie_subject" in case:
+        z = case["zombie_subject"]
+        r = ztask((z[0], z[1], z[2], tuple(tuple(x) for x in z[3])))
+        return {"violated": r["viol"] is not None, "cause": r["viol"][0] if r["viol"] else None, "msg": r["viol"][1] if r["viol"] else None}
     orc = Oracle(case["seed"], case["op"], case["who"])
     plan = tuple((i, d) for i, d in case["plan"])
     r = run_plan(case["seed"], case["op"], case["who"], plan)
